@@ -21,13 +21,14 @@ def main(tier):
             "(UpdateFromTextStream, WriteToTextStream, IsAggregate, Ok) exists on every view kind (R-IFACE); the overflow "
             "guard of the text integer decoder depends on every operand of the accumulating update it protects — "
             "accumulator, base and the incoming digit — a necessary condition for rejecting exactly the overflowing "
-            "numbers (R-GUARDDEPS). "
+            "numbers (R-GUARDDEPS); sibling text-format templates that place a name inside a C string literal (writer and reader of field names and enum names) are given the same name expression by the generator (R-TEXTNAME). "
             "Not decided: integer text encode/decode inverse, whole-structure round trip, option combinations."))
     r, s = cx.repo, cx.schema
     sctl = S.control(r)
     chk.run("R-SCHEMACMP", S.schemacmp, r, s, floor=15, control=lambda: sctl)
     chk.run("R-ATTRVALUES", V.attrvalues, r, floor=4)
     chk.run("R-DEPORDER", B.deporder, r, floor=3)
+    chk.run("R-TEXTNAME", B.textname, r, floor=2)
     chk.run("R-DEPTWIN", P.deptwin, r, s, cx.sites, floor=2)
     chk.run("R-IFACE", C.iface, cx.cpp, cx.templates, floor=80)
     chk.run("R-GUARDDEPS", C.guarddeps, cx.cpp, floor=2)
